@@ -36,7 +36,7 @@ def run(ctx):
     from shapepy import JordanCurve, Primitive, SimpleShape
     from shapepy.jordancurve import IntegrateJordan
     rng, drv = ctx.rng, ctx.drv
-    n = 60 if ctx.quick else 2500
+    n = 60 if ctx.quick else 800
     for it in range(n):
         while True:   # simple and without redundant (collinear) vertices, decided by the model
             vs = shapes.rand_simple_vs(rng, rng.randint(-3, 3), rng.randint(-3, 3), R=6)
